@@ -103,17 +103,28 @@ def run(prop, tier, seed, repo):
         for i, s in enumerate(sessions):
             s["tid"] = i + 1
         t1 = time.time()
-        jobs = [{"kind": "revdfs", "tl": s["tl"], "finals": s["finals"], "budget": 120.0} for s in sessions]
+        # sampled small graphs are run in groups of three on ONE list object that the caller
+        # edits in place between the calls (a history, not three independent inputs)
+        groups = []
+        seqable = [s for s in sessions if s["src"] in ("samp3", "samp4", "rand8")]
+        alone = [s for s in sessions if s["src"] not in ("samp3", "samp4", "rand8")]
+        for i in range(0, len(seqable), 3):
+            groups.append(seqable[i:i + 3])
+        groups += [[s] for s in alone]
+        jobs = [{"kind": "revdfs", "steps": [{"tl": s["tl"], "finals": s["finals"]} for s in grp],
+                 "budget": 120.0} for grp in groups]
         results = pool.run_jobs(jobs, repo, budget=120.0)
-        for s, (events, status) in zip(sessions, results):
-            if status == "timeout":
-                s["table"] = {"ok": False, "etype": "Timeout", "keys": [], "vals": []}
-                s["ret"] = {"ok": False, "etype": "Timeout", "val": []}
-            elif status != "ok" or not events:
+        res.notes["C07.in_place_edit_histories"] = sum(1 for g_ in groups if len(g_) > 1)
+        for grp, (events, status) in zip(groups, results):
+            if status != "timeout" and (status != "ok" or len(events) != len(grp)):
                 raise common.MachineryError("harness failure: %s" % status)
-            else:
-                s["table"] = events[0]["table"]
-                s["ret"] = events[0]["ret"]
+            for j, s in enumerate(grp):
+                if j < len(events):
+                    s["table"] = events[j]["table"]
+                    s["ret"] = events[j]["ret"]
+                else:
+                    s["table"] = {"ok": False, "etype": "Timeout", "keys": [], "vals": []}
+                    s["ret"] = {"ok": False, "etype": "Timeout", "val": []}
         t2 = time.time()
         # shards: small sessions spread evenly, each big one alone-ish
         small = [s for s in sessions if not s["big"]]
